@@ -351,12 +351,15 @@ impl<T> NCReadStream<T> {
     /// Return true if there is nothing more ever to read from the stream.
     #[must_use]
     pub fn eof(&self) -> bool {
+        // Check liveness first. If the queue is checked first, the writer can
+        // push its last packet and go away between the two checks.
+        let closed = Arc::strong_count(&self.q) == 1;
         if !self.q.0.lock().unwrap().is_empty() {
             false
         } else {
             #[cfg(feature = "verif-hooks")]
             crate::verif::point(crate::verif::pt::NC_EOF_AFTER_EMPTY, 0, 0);
-            Arc::strong_count(&self.q) == 1
+            closed
         }
     }
 }
